@@ -115,7 +115,7 @@ def run_pure_mode(ctx, tier, mode, rule, comparison, key_prefix="", vo_deps=("Mo
         mism.append("model and implementation disagree on: " + m.group(1)[:1500])
     viol = [{"key": key_prefix + v.get("kind", "?"), "what": json.dumps(v)[:500], "input": v} for v in (s.get("violations") or [])]
     return {"evaluations": s["evaluations"], "distinct_nontrivial": s.get("distinct_nontrivial", 0), "rule": rule,
-            "samples": s.get("samples", []), "mismatches": mism, "violations": viol,
+            "samples": (s.get("samples") or []), "mismatches": mism, "violations": viol,
             "extra": {"branches_reached": s.get("kinds", {}), "exhaustive_note": s.get("exhaustive", ""), "comparison": comparison}}
 
 
@@ -318,7 +318,7 @@ def make_gossip_check(prop):
         s = r["summary"]
         viol = [{"key": v["key"], "what": v["what"][:400]} for v in (s.get("violations") or []) if v["prop"] in (prop, "HARNESS")]
         return {"evaluations": s["evaluations"], "distinct_nontrivial": s["distinct_nontrivial"], "rule": GOSSIP_RULE,
-                "samples": s.get("samples", [])[:2], "mismatches": r["mismatches"], "violations": viol,
+                "samples": (s.get("samples") or [])[:2], "mismatches": r["mismatches"], "violations": viol,
                 "extra": {"branches_reached": s.get("kinds", {}),
                           "comparison": "every delivery: admitted? and the set of forward destinations vs Gossip.handle; final admitted set and empty queue (CheckGossip.gmismatches, coqc vm_compute)"},
                 "assumptions": ["one item whose acceptance does not depend on delivery order (parents are everywhere); cross-item reordering is C13",
@@ -364,7 +364,7 @@ def run_C15(ctx, tier):
             "rule": "EXHAUSTIVE product, per handler, of length classes per bytes/string field ({0,1,31,32,33,100} for hashes and digests, {0,31,32} for secondary hashes, "
                     "empty/non-empty for text, 0/5/1100 for data), present/absent per sub-message and success/failure per dependency (programmable stubs), on the REAL handler code "
                     "under recover(); non-trivial = cases that end in an error or a panic (each case is distinct by construction)",
-            "samples": s.get("samples", []), "mismatches": mism, "violations": viol,
+            "samples": (s.get("samples") or []), "mismatches": mism, "violations": viol,
             "extra": {"branches_reached": s.get("kinds", {}), "exhaustive": True,
                       "comparison": "outcome class (response/error/panic) and the sorted list of mutating dependency calls vs Handlers.run, on EVERY case, by the extracted OCaml model"},
             "assumptions": ["gRPC delivers non-nil top-level messages and non-nil elements of repeated message fields (protobuf decoding)",
@@ -412,7 +412,7 @@ def run_C16(ctx, tier):
                     "pure transfers (honest / corrupted issuer signature), confirmations (valid receiver signature / signed by another wallet / stripped), rejections (receiver / issuer / outsider / "
                     "corrupted signature), challenges, waiting-list reads (own key / wrong key / foreign challenge / after expiry), balance reads (own / foreign key, foreign address), replays; "
                     "non-trivial = distinct sequences with at least one confirm or reject",
-            "samples": s.get("samples", [])[:2], "mismatches": mism, "violations": viol,
+            "samples": (s.get("samples") or [])[:2], "mismatches": mism, "violations": viol,
             "extra": {"branches_reached": s.get("kinds", {}),
                       "comparison": "response class, returned waiting list, per-address awaiting listings and the sealed set after EVERY call vs Notary.nstep (CheckNotary.nmismatches, coqc vm_compute)"},
             "assumptions": ["H-sig: a signature that verifies under an address's key was made by its owner",
@@ -448,7 +448,7 @@ def run_C08(ctx, tier):
                     "k = 0..n+2 over an n-vertex history; synchronous truncation of 1000+ vertex histories (first internal walk exits early at the cut) and truncation cancelled at poll "
                     "0,1,500,999,1000,1001; DAG streaming to a slow consumer while 30 proposals arrive, and to a consumer that goes away; after EVERY scenario a probe proposal must return within 5 s "
                     "and the goroutine profile must show no goroutine parked in dag.walkAncestors; non-trivial = scenarios in which the operation was actually cut short or ran concurrently",
-            "samples": s.get("samples", [])[:2], "mismatches": [], "violations": viol,
+            "samples": (s.get("samples") or [])[:2], "mismatches": [], "violations": viol,
             "extra": {"branches_reached": s.get("kinds", {}), "walker_sites_translated": nsites, "graph_write_sites_translated": nwriters,
                       "comparison": "the model's inputs (Gen/WalkerSites.v: drain discipline, signal-channel uses, error checks, ledger lock held at every walk and graph write) are regenerated from "
                                     "src/accountant by the Go-AST translator on every run and C08_tree_discipline is re-proved over them; the dynamic sweep checks the protocol's observable consequence on the real code"},
@@ -521,7 +521,7 @@ def run_C18(ctx, tier):
                     "trusted-node update} runs in two goroutines (6 iterations each), then 8 goroutines run 20 random operations each; parked vertices against the REAL 2 s retry ticker; truncation of a 1010-vertex "
                     "history concurrently with balance reads and proposals; on a gossip node every pair of {announce, discover, fetch-missing-parent, gossiped vertex with unknown parent}; the race detector's "
                     "reports (GORACE log) are the oracle; reports whose racing frame is verification-hook code are ignored; non-trivial = distinct operation pairs",
-            "samples": s.get("samples", [])[:2], "mismatches": [], "violations": viol,
+            "samples": (s.get("samples") or [])[:2], "mismatches": [], "violations": viol,
             "extra": {"branches_reached": s.get("kinds", {}), "race_reports_total": total,
                       "accesses_translated": len(re.findall(r"^\s*Acc ", table, re.M)), "roots_translated": len(re.findall(r"^\s*Root ", table, re.M)),
                       "comparison": "static: Gen/LockSites.v regenerated from the source and C18_lockset_discipline re-proved on every run; dynamic: Go race detector over the pair matrix on the real code"},
@@ -596,3 +596,40 @@ PROPS = {
          "expiry (5 min life window of bigcache) is not modelled nor exercised"],
         ("Run/CheckCache.vo",)),
 }
+
+
+# ------------------------------------------------------------------ C19 also looks at the wire form inside the notary's read replies
+def _wrap_C19():
+    base = PROPS["C19"]["run"]
+
+    def run(ctx, tier):
+        r = base(ctx, tier)
+        tool = _tool("notaryh")
+        summ, cases = os.path.join(ctx.work, "notary_wire_%s.json" % tier), os.path.join(ctx.work, "notary_wire_%s.v" % tier)
+        rc, out, err = sh([tool, "-tier", "quick", "-seed", str(ctx.seed), "-summary", summ, "-out", cases], timeout=1500, cwd=ctx.work)
+        if rc != 0:
+            raise RuntimeError("notaryh failed rc=%s %s %s" % (rc, out[-1500:], err[-1500:]))
+        s = json.load(open(summ))
+        for v in (s.get("violations") or []):
+            if v["key"].startswith("wire-form"):
+                r["violations"].append({"key": v["key"], "what": v["what"][:500]})
+        r["evaluations"] += s["evaluations"]
+        r["rule"] += "; plus every read reply of the real notary server (Waiting) in seeded call sequences: each transaction of a reply, mapped back from its wire form, is one of the saved " \
+                     "transactions with every signed field intact, still verifies, and no two entries of a reply coincide"
+        r.setdefault("extra", {}).setdefault("branches_reached", {})["notary.replies_with_several_transactions"] = (s.get("kinds") or {}).get("wire.reply_with_several_transactions", 0)
+        return r
+    PROPS["C19"]["run"] = run
+
+    def replay(ctx, path):
+        r = json.load(open(path))
+        print(json.dumps(r, indent=1)[:3000])
+        res = run(ctx, r.get("tier", "quick"))
+        if res["violations"] or res["mismatches"]:
+            print("VIOLATION property=C19 replay=%s" % path)
+            return 1
+        print("replay: property holds on the current tree")
+        return 0
+    PROPS["C19"]["replay"] = replay
+
+
+_wrap_C19()
